@@ -108,11 +108,19 @@ struct SpecEnc {
     double last_rot = 0;
     bool last_refl = false;
 
+    // 16-bit LAYER / DATATYPE / TEXTTYPE / BOXTYPE fields above 32767 (gdstk itself writes (uint16_t)layer): only for the
+    // summary-versus-load comparison of C17, where any consistent reading of the field will do; the layouts expected by the
+    // specification kinds stay within 0..32767 (the precondition of C01 / C03)
+    bool wide_tags = false;
+    int tagval() {
+        if (wide_tags && g.chance(15)) return 32768 + (int)g.below(32768);
+        return (int)g.below(200);
+    }
     void boundary() {
         bool box = g.chance(25);
         rec(box ? 0x2D : 0x08, 0, {});
         optional_flags();
-        int layer = (int)g.below(200), type = (int)g.below(200);
+        int layer = tagval(), type = tagval();
         r16(0x0D, 2, layer);
         r16(box ? 0x2E : 0x0E, 2, type);
         int n = box ? 4 : 3 + (int)g.below(8);
@@ -132,7 +140,7 @@ struct SpecEnc {
     void path() {
         rec(0x09, 0, {});
         optional_flags();
-        int layer = (int)g.below(200), type = (int)g.below(200);
+        int layer = tagval(), type = tagval();
         r16(0x0D, 2, layer);
         r16(0x0E, 2, type);
         int pt = -1;
@@ -165,7 +173,7 @@ struct SpecEnc {
     void text() {
         rec(0x0C, 0, {});
         optional_flags();
-        int layer = (int)g.below(200), type = (int)g.below(200);
+        int layer = tagval(), type = tagval();
         r16(0x0D, 2, layer);
         r16(0x16, 2, type);
         int anchor = 0;
@@ -707,6 +715,7 @@ int main(int argc, char** argv) {
     int nspec = thorough ? 3000 : 250;
     for (int it = 0; it < nspec && (want("spec") || want("specinfo")); it++) {
         SpecEnc e(g);
+        e.wide_tags = !want("spec");
         static const double users[] = {1e-3, 1.0 / 1024, 0.5, 1e-3, 1e-3};
         static const double meters[] = {1e-9, 1.0 / 1024, 1e-7, 1e-9, 5e-10};
         int ui = (int)g.below(5);
